@@ -71,8 +71,11 @@ fn append_fresh(scn: &Scenario, trace: &mut Vec<Value>, mode: &str) {
             continue;
         }
         let mut solo = scn.clone();
+        // in-poll signals are recorded with fn_graph's own events, so that the monitor can tell a function
+        // handed out before the signal from one handed out after it
+        let inside = mine.iter().any(|st| matches!(st, crate::scenario::Step::Open { signal: true, .. }));
         solo.phases = vec![Phase::Runs { runs: vec![runs[r - 1].clone()], steps: mine }];
-        let res = run_scenario(&solo, false, &ExploreOpts::default());
+        let res = run_scenario(&solo, inside, &ExploreOpts::default());
         trace.push(serde_json::json!({"ev":"fresh_begin","of":r,"first":first,"mode":mode}));
         first = false;
         let from = res.trace.iter().position(|v| v["ev"] == "call").unwrap_or(res.trace.len());
@@ -1248,7 +1251,7 @@ pub fn generate(p: &GenParams, out: &mut Out) {
                 let mut s = base_scn(format!("{}-{i}", if overlap { "mo" } else { "ms" }), n, calls_of(&e, rng.next()), reads, writes);
                 s.phases.push(runs_phase(runs));
                 let mut r2 = Rng::new(sub);
-                let (mut scn, mut trace) = random_walk(&s, &x, p.hooks, 10 * n + 24, &mut r2);
+                let (mut scn, mut trace) = random_walk(&s, &x, p.hooks || x.signal_inside, 10 * n + 24, &mut r2);
                 scn.id = s.id.clone();
                 if let Some(f) = trace.first_mut() {
                     f["scn"] = Value::String(scn.id.clone());
